@@ -828,6 +828,19 @@ class Executor(object):
         for t in st.targets:
             if isinstance(t, ast.Subscript):
                 base = self.eval(t.value)
+                if isinstance(base, VBytes) and isinstance(t.slice, ast.Slice) and t.slice.step is None:
+                    if not base.ba:
+                        raise RaiseSig(VExc('TypeError'))          # bytes does not support item deletion
+                    # del b[lo:hi]  ==  b[lo:hi] = b''
+                    lo, hi = self.slice_bounds(t.slice, base)
+                    n = z3.Length(base.term)
+                    hi2 = z3.If(hi < lo, lo, hi)
+                    if self.cheap_entails(lo == 0):
+                        new = self.slice_term(base.term, hi2, n)
+                    else:
+                        new = self.concat_terms([self.slice_term(base.term, z3.IntVal(0), lo), self.slice_term(base.term, hi2, n)])
+                    self.assign(t.value, VBytes(new, True))
+                    continue
                 if self.world.subscript_delete(self, base, t) is NotImplemented:
                     raise Unsupported('del on %r' % (base,))
             else:
@@ -1351,9 +1364,25 @@ class Executor(object):
         except (Unsupported, KeyError):
             return None
 
+    @staticmethod
+    def loop_header(st):
+        if isinstance(st, ast.While):
+            return 'while ' + ast.unparse(st.test)
+        return 'for %s in %s' % (ast.unparse(st.target), ast.unparse(st.iter))
+
+    def loop_spec(self, st, ordinal):
+        """Invariants are keyed by the loop's header text ('while arg0_arg1', 'for k in keys'), optionally refined by the ordinal
+        ((header, ordinal)), or by the bare ordinal: header keys survive edits that reorder, merge or duplicate loops."""
+        loops = self.contract.loops
+        h = self.loop_header(st)
+        for k in ((h, ordinal), h, ordinal):
+            if k in loops:
+                return loops[k]
+        return None
+
     def cut_loop(self, st, kind, seq=None):
         ordinal = self.loop_ordinal(st)
-        spec = self.contract.loops.get(ordinal)
+        spec = self.loop_spec(st, ordinal)
         if spec is None:
             raise Unsupported('loop %s of %s (line %s) has no invariant in its contract' % (ordinal, self.contract.key, st.lineno))
         tag = 'loop%d' % ordinal
